@@ -1,7 +1,6 @@
 package gen
 
 import (
-	"strings"
 	"fmt"
 	"math/rand"
 
@@ -288,6 +287,40 @@ func SPDXPackageNode(r *rand.Rand, id string, forceAlgo int) *sbom.Node {
 			n.ExternalReferences = append(n.ExternalReferences, er)
 		}
 	}
+	if r.Intn(5) == 0 {
+		// one value in several places: an identifier that is also the URL of an external reference, two
+		// references with one URL, two identifier kinds with one value, home page = download location
+		var idVals []string
+		for _, k := range []int32{1, 2, 3, 4} {
+			if v, ok := n.Identifiers[k]; ok {
+				idVals = append(idVals, v)
+			}
+		}
+		switch r.Intn(4) {
+		case 0:
+			if len(idVals) > 0 && len(n.ExternalReferences) > 0 {
+				n.ExternalReferences[r.Intn(len(n.ExternalReferences))].Url = Pick(r, idVals)
+			}
+		case 1:
+			if len(n.ExternalReferences) >= 2 && n.ExternalReferences[0].Type != n.ExternalReferences[1].Type {
+				n.ExternalReferences[1].Url = n.ExternalReferences[0].Url
+			}
+		case 2:
+			if len(idVals) >= 2 {
+				ks := []int32{}
+				for _, k := range []int32{1, 2, 3, 4} {
+					if _, ok := n.Identifiers[k]; ok {
+						ks = append(ks, k)
+					}
+				}
+				n.Identifiers[ks[1]] = n.Identifiers[ks[0]]
+			}
+		default:
+			if n.UrlHome != "" {
+				n.UrlDownload = n.UrlHome
+			}
+		}
+	}
 	switch r.Intn(6) {
 	case 0:
 	case 1: // two purposes: the format carries one
@@ -356,8 +389,23 @@ func SPDXFileNode(r *rand.Rand, id string, forceAlgo int) *sbom.Node {
 }
 
 func UniqueIDs(r *rand.Rand, n int, mk func(*rand.Rand) string) []string {
+	return UniqueIDsSep(r, n, mk, "1-.")
+}
+
+// UniqueIDsSep is UniqueIDs for formats whose identifiers may contain the given separator characters: the related
+// identifiers of a document are built from the letter a and two of them, so that whatever character a key-building
+// routine puts between two identifiers ("/", ":", "|", ...) may also occur inside them.
+func UniqueIDsSep(r *rand.Rand, n int, mk func(*rand.Rand) string, seps string) []string {
 	if r.Intn(4) == 0 && n <= 100 {
-		return RelatedIDs(r, n)
+		rs := []rune(seps)
+		a, b := rs[r.Intn(len(rs))], rs[r.Intn(len(rs))]
+		if a == b {
+			b = '1'
+		}
+		if a == '1' && b == '1' {
+			b = '-'
+		}
+		return RelatedIDs(r, n, "a"+string(a)+string(b))
 	}
 	seen := Set{}
 	var out []string
@@ -372,10 +420,10 @@ func UniqueIDs(r *rand.Rand, n int, mk func(*rand.Rand) string) []string {
 	return out
 }
 
-// RelatedIDs: n distinct short identifiers over {a,1,-} (length 1..4), so that identifiers are prefixes, suffixes and
+// RelatedIDs: n distinct short identifiers over a three-character alphabet such as {a,1,-} (length 1..4), so that identifiers are prefixes, suffixes and
 // concatenations of one another ("a"+"11" == "a1"+"1") and end in digits: keys built by gluing identifiers (and
 // numbers) together collide on them.
-func RelatedIDs(r *rand.Rand, n int) []string {
+func RelatedIDs(r *rand.Rand, n int, alphabet string) []string {
 	var all []string
 	var rec func(p string)
 	rec = func(p string) {
@@ -385,7 +433,7 @@ func RelatedIDs(r *rand.Rand, n int) []string {
 		if len(p) == 4 {
 			return
 		}
-		for _, ch := range "a1-" {
+		for _, ch := range alphabet {
 			rec(p + string(ch))
 		}
 	}
@@ -411,12 +459,17 @@ func IsRelatedIDs(nl *sbom.NodeList) bool {
 	if nl == nil || len(nl.Nodes) < 2 {
 		return false
 	}
+	seen := map[rune]bool{}
 	for _, n := range nl.Nodes {
-		if len(n.Id) == 0 || len(n.Id) > 4 || strings.Trim(n.Id, "a1-") != "" {
+		rs := []rune(n.Id)
+		if len(rs) == 0 || len(rs) > 4 {
 			return false
 		}
+		for _, c := range rs {
+			seen[c] = true
+		}
 	}
-	return true
+	return len(seen) <= 3
 }
 
 // SPDXDoc draws a document of the SPDX-representable class. k forces coverage:
@@ -607,6 +660,26 @@ func CDXNode(r *rand.Rand, id string, ver int, k int, first bool) *sbom.Node {
 	return n
 }
 
+// GluedKeyQuad returns identifiers P1, P2, C1, C2 such that the links P1>C1 and P2>C2 give the same string when
+// parent and child are glued together with the separator drawn (possibly none): P1=x, C1=y+sep+z, P2=x+sep+y, C2=z.
+func GluedKeyQuad(r *rand.Rand) []string {
+	sep := Pick(r, []string{"", "", "/", ":", "|", ",", "-", ".", "#", "@", "+", "_", "->", "::", " "})
+	tok := func() string { return string(rune('A'+r.Intn(26))) + string(rune('a'+r.Intn(26))) }
+	x, y, z := tok(), tok(), tok()
+	return []string{x, x + sep + y, y + sep + z, z}
+}
+
+func containsAny(xs, ys []string) bool {
+	for _, x := range xs {
+		for _, y := range ys {
+			if x == y {
+				return true
+			}
+		}
+	}
+	return false
+}
+
 // CDXTree draws a single-rooted containment tree. The returned parent map is the ground truth.
 // depthBias: 0 random, 1 chain-like (deep), 2 star-like (wide).
 func CDXTree(r *rand.Rand, k, ver, maxNodes int) (*sbom.Document, map[string]string, string) {
@@ -625,7 +698,14 @@ func CDXTree(r *rand.Rand, k, ver, maxNodes int) (*sbom.Document, map[string]str
 		}
 	}
 	n := 1 + r.Intn(maxNodes)
-	ids := UniqueIDs(r, n, IDCdx)
+	ids := UniqueIDsSep(r, n, IDCdx, "1-./:|,+#@_ ")
+	quad := false
+	if n >= 5 && r.Intn(8) == 0 {
+		if q := GluedKeyQuad(r); !containsAny(ids[:1], q) && !containsAny(ids[5:], q) {
+			copy(ids[1:5], q)
+			quad = true
+		}
+	}
 	for i, id := range ids {
 		doc.NodeList.Nodes = append(doc.NodeList.Nodes, CDXNode(r, id, ver, k, i == 0))
 	}
@@ -634,6 +714,18 @@ func CDXTree(r *rand.Rand, k, ver, maxNodes int) (*sbom.Document, map[string]str
 	children := map[string][]string{}
 	for i := 1; i < n; i++ {
 		var p int
+		switch {
+		case quad && i <= 2:
+			p = 0
+			parent[ids[i]] = ids[p]
+			children[ids[p]] = append(children[ids[p]], ids[i])
+			continue
+		case quad && i <= 4:
+			p = i - 2 // C1 under P1, C2 under P2
+			parent[ids[i]] = ids[p]
+			children[ids[p]] = append(children[ids[p]], ids[i])
+			continue
+		}
 		switch bias {
 		case 1:
 			p = i - 1 // chain: depth n
@@ -667,6 +759,9 @@ func CDXTree(r *rand.Rand, k, ver, maxNodes int) (*sbom.Document, map[string]str
 	}
 	doc.NodeList.RootElements = []string{ids[0]}
 	shape := []string{"random-tree", "deep-tree", "wide-tree"}[bias]
+	if quad {
+		shape += "/with-glued-key-quadruple"
+	}
 	if grouped {
 		shape += "/grouped-edges"
 	} else {
